@@ -556,6 +556,8 @@ impl GroupOrderElement {
         bn.rmod(&ORDER);
         bn.rsub(&ORDER);
         bn.norm();
+        // ORDER - 0 = ORDER: reduce once more so that the negation of zero is zero
+        bn.rmod(&ORDER);
         Ok(GroupOrderElement { bn })
     }
 
